@@ -131,6 +131,8 @@ def Dyadic53 (q : Rat) : Prop :=
   q = 0 ∨ (q.den = 2 ^ Nat.log2 q.den ∧ 2 ^ (Nat.log2 q.num.natAbs - 52) ∣ q.num.natAbs ∧
     Nat.log2 q.den ≤ Nat.log2 q.num.natAbs + 1022 ∧ Nat.log2 q.num.natAbs ≤ Nat.log2 q.den + 1023)
 
+instance (q : Rat) : Decidable (Dyadic53 q) := by unfold Dyadic53; infer_instance
+
 theorem scale_identity (n M hb ld b : Nat) (hkey : n * 2 ^ (52 - hb) = M * 2 ^ (hb - 52))
     (hb' : b + ld = hb + 1023) : M * 2 ^ (b - 1075) * 2 ^ ld = n * 2 ^ (1075 - b) := by
   have e : (b - 1075) + ld + (52 - hb) = (hb - 52) + (1075 - b) := by omega
@@ -296,7 +298,9 @@ example : f64bits (-(1 / 16)) = 0xBFB0000000000000 := by decide +kernel
 example : f64bits (2 ^ 60) = 0x43B0000000000000 := by decide +kernel
 example : f64bits (2 ^ 1023) = 0x7FE0000000000000 := by decide +kernel
 example : f64bits (1 / 2 ^ 1022) = 0x0010000000000000 := by decide +kernel
-example : Dyadic53 (2 ^ 60) := Or.inr (by decide +kernel)
+example : Dyadic53 (2 ^ 60) := by decide +kernel
+example : Dyadic53 (-(1234567 / 2 ^ 40)) := by decide +kernel
+example : ¬ Dyadic53 (1 / 3) := by decide +kernel
 
 end Geo
 
